@@ -514,7 +514,60 @@ class Gen:
 def generate(ch, P):
     if P.get("ladder") and ch.chance(1, P["ladder"], "ladder"):
         return generate_ladder(ch, P)
+    if P.get("loop_ladder") and ch.chance(1, P["loop_ladder"], "loop_ladder"):
+        return generate_loop_ladder(ch, P)
     return Gen(ch, P).program()
+
+
+def generate_loop_ladder(ch, P):
+    """Dense family for loop state under deferred rendering: 2-3 components whose templates nest 1-3 {% for %} loops around
+    the tag of the next component; the fill passed to it (and the next component's own template, in django mode) echoes
+    loop variables, forloop.* and forloop.parentloop.* - read only when the deferred render finally happens."""
+    mode = ["django", "isolated"][ch.draw(2, "mode")]
+    n_tok = [0]
+
+    def tok():
+        n_tok[0] += 1
+        return f"t{n_tok[0]}"
+
+    depth = 2 + ch.draw(2, "ll_depth")
+    comps = []
+    for i in range(depth):
+        name = f"c{i}"
+        last = i == depth - 1
+        if last:
+            comps.append(_cd(name, f"L{i}", [["text", tok()], ["slot", "a", True, False, [], [["text", tok()]]], ["var", f"{name}_s"]],
+                             slots=[["a", True, False, []]]))
+            continue
+        nloops = 1 + ch.draw(3, "ll_loops")
+        echo = []
+        lv = []
+        for q in range(nloops):
+            lv.append(f"x{i}_{q}")
+        for q in range(1 + ch.draw(3, "ll_echoes")):
+            kind = ch.draw(3, "ll_echo_kind")
+            if kind == 0:
+                echo.append(["var", lv[ch.draw(len(lv), "ll_var")]])
+            else:
+                echo.append(["forloop", ch.draw(nloops, "ll_up"), ["counter", "counter0", "last"][ch.draw(3, "ll_attr")]])
+            echo.append(["text", tok()])
+        only = ch.chance(1, 3, "ll_only")
+        bk = ch.draw(3, "ll_body")
+        if bk == 0:
+            call = ["comp", f"c{i + 1}", [["s", ["var", lv[-1]]]], only, "none", [], False]
+        elif bk == 1:
+            call = ["comp", f"c{i + 1}", [], only, "implicit", echo, ch.chance(1, 4, "ll_dyn")]
+        else:
+            call = ["comp", f"c{i + 1}", [], only, "fills", [["fill", ["lit", "a"], None, None, echo]], False]
+        inner = [call]
+        for q in reversed(range(nloops)):
+            inner = [["for", lv[q], f"{name}_l", inner + ([["text", tok()]] if ch.chance(1, 3, "ll_sep") else [])]]
+        slot = [["slot", "a", True, False, [], []]] if i > 0 else []
+        comps.append(_cd(name, f"L{i}", [["text", tok()]] + inner + slot, slots=[["a", True, False, []]] if i > 0 else []))
+    page = [["text", tok()], ["comp", "c0", [], False, "none", [], False]]
+    ctx = {"pa": "PA", "pb": "PB", "pl": ["e0", "e1"], "pn": ["a"], "pt": True, "pf": False}
+    return {"mode": mode, "comps": comps, "page": page, "ctx": ctx, "py_entry": False, "page_wrap": 0,
+            "features": ["loop_ladder"]}
 
 
 def _cd(name, label, tmpl, injects=(), slots=()):
